@@ -80,15 +80,29 @@ Definition outcome_eqb (a b : outcome) : bool :=
   | _, _ => false
   end.
 
+(* Repairs proposed in /verif/fixes (C19-<key>.patch). The model is written once, in the shape of the code,
+   with the patched lines selected by this record: `no_fixes` is the pinned tree, and a field is switched on
+   (tie/props/c19.py, from the `fixed:` lines of known_findings/C19.txt) when the patch has landed in /repo. *)
+Record fixes := {
+  fx_F    : bool;   (* C19-not-file-missing: `"F" in mode and os.path.exists(abs_path)` before the isfile/S_ISFIFO test *)
+  fx_fifo : bool;   (* C19-fc-fifo: the "c" block's file test gets the S_ISFIFO clause of the plain "f" test *)
+  fx_cc   : bool;   (* C19-cc-through-file: the "cc" loop stops at the first EXISTING ancestor (`not os.path.exists(pdir)`) *)
+  fx_lf   : bool    (* C19-list-file-relative: _check_type's fallback no longer enters the config file's directory (Model/C19Cwd.v) *)
+}.
+Definition no_fixes : fixes := {| fx_F := false; fx_fifo := false; fx_cc := false; fx_lf := false |}.
+Definition all_fixes : fixes := {| fx_F := true; fx_fifo := true; fx_cc := true; fx_lf := true |}.
+
 (* `if "c" in mode:` block, _util.py:598-612. None = fall through to the next statement. *)
-Definition check_c (fl : mfl) (f : facts) : option outcome :=
+Definition check_c_fx (fxs : fixes) (fl : mfl) (f : facts) : option outcome :=
   (* pdir = realpath(abs_path/..); with "cc" the while loop climbs to the nearest directory
-     (the root at the latest), so afterwards isdir(pdir) holds *)
-  let pdir_isdir := if negb (par_dir f) && fcc fl then true else par_dir f in
+     (the root at the latest), so afterwards isdir(pdir) holds; repaired: it climbs to the first existing
+     ancestor, which may or may not be a directory *)
+  let pdir_isdir := if negb (par_dir f) && fcc fl then (if fx_cc fxs then anc_dir f else true) else par_dir f in
   if negb pdir_isdir then Some PathErr
   else if negb (dir_w f) then Some PathErr
   else if fd fl && exists_ f && negb (os_isdir f) then Some PathErr
-  else if ff fl && exists_ f && negb (os_isfile f) then Some PathErr
+  else if ff fl && exists_ f
+          && negb (os_isfile f || (fx_fifo fxs && kind_eqb (kd f) KFifo)) then Some PathErr
   else None.
 
 (* `elif "d" in mode or "f" in mode:` block, _util.py:613-619 *)
@@ -105,7 +119,7 @@ Definition check_fd (fl : mfl) (f : facts) : option outcome :=
   else None.
 
 (* _util.py:621-636, in order *)
-Definition check_access (fl : mfl) (f : facts) : outcome :=
+Definition check_access_fx (fxs : fixes) (fl : mfl) (f : facts) : outcome :=
   if fr fl && negb (ar f) then PathErr
   else if fw fl && negb (aw f) then PathErr
   else if fx fl && negb (ax f) then PathErr
@@ -116,7 +130,7 @@ Definition check_access (fl : mfl) (f : facts) : outcome :=
       else if fW fl && aw f then PathErr
       else if fX fl && ax f then PathErr
       else Accept in
-    if fF fl then
+    if fF fl && (negb (fx_F fxs) || exists_ f) then      (* repaired: `and os.path.exists(abs_path)` *)
       (if os_isfile f then PathErr
        else match os_stat_isfifo f with
             | None => OsErr            (* os.stat on a missing path: not the documented error *)
@@ -125,21 +139,28 @@ Definition check_access (fl : mfl) (f : facts) : outcome :=
             end)
     else after_F.
 
-Definition path_check_fl (fl : mfl) (f : facts) : outcome :=
+Definition path_check_fl_fx (fxs : fixes) (fl : mfl) (f : facts) : outcome :=
   let first :=
-    if fc fl then check_c fl f
+    if fc fl then check_c_fx fxs fl f
     else if fd fl || ff fl then check_fd fl f
     else None in
   match first with
   | Some o => o
-  | None => check_access fl f
+  | None => check_access_fx fxs fl f
   end.
 
+(* the pinned tree *)
+Definition check_c := check_c_fx no_fixes.
+Definition check_access := check_access_fx no_fixes.
+Definition path_check_fl := path_check_fl_fx no_fixes.
+
 (* Path(path, mode) for a local path: ValueError for an invalid mode, no check at all for "-" *)
-Definition path_check (m : str) (stdio : bool) (f : facts) : outcome :=
+Definition path_check_fx (fxs : fixes) (m : str) (stdio : bool) (f : facts) : outcome :=
   if negb (check_mode m) then ValErr
   else if stdio then Accept
-  else path_check_fl (flags_of m) f.
+  else path_check_fl_fx fxs (flags_of m) f.
+
+Definition path_check := path_check_fx no_fixes.
 
 (* ---- absolute / relative bookkeeping (_util.py:547-573, local branch) ----------------------- *)
 Definition slash : N := 47.
